@@ -1,4 +1,5 @@
 import JadeModel.Proofs.Batch
+import JadeModel.Proofs.BatchBlocked
 
 /-!
 # C07 — every batch respects its group's size/time limit and holds only its group's jobs
@@ -97,6 +98,33 @@ theorem C07_fuel_suffices (hfit : ∀ c ∈ cands, p.timeBased = true → 60 * c
 theorem C07_unvalidated_estimate_diverges :
     (submitBatches { batchSize := 1, timeBased := true, tryAdd := false, maxTime := 60 } 5 false 0
       [{ id := 0, blockedBy := [], est := 2 }] [true, true]).diverged = true := by decide
+
+/-- **The round's two hand-overs never share a job** (size-based batching, the default): a job `_submit_batches` reports
+    as blocked is in none of the batches of that call — `Cluster._update_job_status`, which marks the batched jobs
+    SUBMITTED and then asserts that every blocked job is still NOT_SUBMITTED, therefore accepts the round's output.
+    Full statement (any batching) not proved: with time-based batching the cursor can roll back over a job in the blocked
+    dictionary (`C07_rollback_hands_blocked_job_on`); there the job stays out of the later batches because its blockers
+    sit in the earlier one — decided by the `batch` correspondence suite, which persists every round's output through the
+    real `update_job_status`. -/
+theorem C07_blocked_not_submitted_partial (hnd : (cands.map (·.id)).Nodup) (htb : p.timeBased = false) :
+    ∀ c ∈ (submitBatches p depth dryRun out cands env).blocked,
+      c.id ∉ (allJobs (submitBatches p depth dryRun out cands env).batches).map (·.id) := by
+  intro c hc hmem
+  obtain ⟨d, hd, hid⟩ := List.mem_map.1 hmem
+  exact submitBatches_blocked_disjoint p depth dryRun out cands env hnd htb c hc d hd hid.symm
+
+theorem C07_rollback_hands_blocked_job_on : type_of% @Jade.Batch.rollback_hands_blocked_job_on :=
+  @Jade.Batch.rollback_hands_blocked_job_on
+
+/-- the time-based round of that witness: job 2 is reported blocked (twice) and is in no batch -/
+example : let r := (submitBatches { batchSize := 500, timeBased := true, tryAdd := true, maxTime := 1500 } 9 false 0
+      [⟨0, [1], 10⟩, ⟨1, [], 10⟩, ⟨2, [0], 90⟩] [true, true, true])
+    r.batches.map (·.jobs.map (·.id)) = [[1, 0]] ∧ r.blocked.map (·.id) = [2, 2] := by decide
+
+/-- non-vacuity of `C07_blocked_not_submitted_partial`: a size-based round with a non-empty blocked list -/
+example : let r := (submitBatches { batchSize := 2, timeBased := false, tryAdd := true, maxTime := 0 } 3 false 0
+      [⟨0, [3], 5⟩, ⟨1, [], 5⟩, ⟨2, [], 5⟩, ⟨3, [], 5⟩] [true, true, true])
+    r.batches.map (·.jobs.map (·.id)) = [[1, 2], [3]] ∧ r.blocked.map (·.id) = [0] := by decide
 
 /-! ## Non-vacuity -/
 
